@@ -97,6 +97,7 @@ type jobSpec struct {
 	Sub   int `json:"sub"`   // sub-directory shape 0..3
 	Size  int `json:"size"`  // filler bytes after the identifying header
 	Fault int `json:"fault"` // fault kind
+	Stale int `json:"stale,omitempty"` // > 0: the path already holds a file that is this many bytes longer than the new content (a re-generation)
 	Post  int `json:"post"`  // pause action inside PostProcess after its gate opened
 }
 
@@ -497,6 +498,15 @@ func (r *run) setup() error {
 		r.idx[r.paths[i]] = i
 		r.raw[i] = rawContent(i, n, j.Size)
 		r.want[i] = string(transform(i, []byte(r.raw[i])))
+		if j.Stale > 0 && j.Fault != faultIsDir && j.Fault != faultParent && j.Fault != faultAncestor {
+			// output of an earlier, longer generation at the same path
+			if err := os.MkdirAll(sub, 0o755); err != nil {
+				return err
+			}
+			if err := os.WriteFile(r.paths[i], []byte(strings.Repeat("s", len(r.want[i])+j.Stale)), 0o644); err != nil {
+				return err
+			}
+		}
 		r.gates[i] = make(chan struct{})
 		r.inj[i] = &injected{job: i}
 	}
@@ -783,6 +793,13 @@ func (r *run) decide(s1 map[string]entry, err1 error, s2 map[string]entry, err2 
 		case e.data == r.want[i]:
 		case c.Jobs[i].Fault == faultPP && e.data == r.raw[i]:
 			// the statement does not forbid writing the unprocessed own content
+		case c.Jobs[i].Stale > 0 && e.data == strings.Repeat("s", len(r.want[i])+c.Jobs[i].Stale):
+			// untouched output of the earlier generation: fine only if the run failed somewhere
+			if err == nil {
+				add("Persist returned nil but the file of job %d still holds the earlier generation's content", i)
+			}
+		case c.Jobs[i].Stale > 0 && len(e.data) > len(r.want[i]) && strings.HasPrefix(e.data, r.want[i]):
+			add("the file of job %d holds its new content followed by %d bytes of the file that was there before: the file was not truncated", i, len(e.data)-len(r.want[i]))
 		case strings.HasPrefix(r.want[i], e.data):
 			add("the file of job %d is partial: %d of %d bytes", i, len(e.data), len(r.want[i]))
 		default:
@@ -887,6 +904,9 @@ func genCase(rt *rapid.T) persistCase {
 			Sub:  rapid.IntRange(0, 3).Draw(rt, "sub"),
 			Size: sizeGen.Draw(rt, "size"),
 			Post: postPauseGen.Draw(rt, "post"),
+		}
+		if rapid.IntRange(0, 5).Draw(rt, "stale") == 0 {
+			j.Stale = rapid.IntRange(1, 400).Draw(rt, "stale_extra")
 		}
 		if i == one || (dens > 0 && rapid.IntRange(0, 9).Draw(rt, "faulty") < dens) {
 			j.Fault = rapid.SampledFrom([]int{faultPP, faultPP, faultPP, faultIsDir, faultParent, faultAncestor}).Draw(rt, "fault")
